@@ -25,7 +25,9 @@ def circle_failures(seed):
     reg = Region(maxdepth=maxd)
     vector_form = rnd.random() < 0.5
     if vector_form:
-        reg.add_circles(np.radians([ra, ra]), np.radians([dec, dec]), np.radians([rad, rad * 0.5]), depth=depth)
+        # concentric circles, the larger one first or second
+        radii = [rad, rad * 0.5] if rnd.random() < 0.5 else [rad * 0.5, rad]
+        reg.add_circles(np.radians([ra, ra]), np.radians([dec, dec]), np.radians(radii), depth=depth)
     else:
         reg.add_circles(np.radians(ra), np.radians(dec), np.radians(rad), depth=depth)
     pixsize = np.degrees(hp.nside2resol(2 ** depth))
@@ -113,6 +115,24 @@ def poly_failures(seed):
     return out
 
 
+def concentric_failures():
+    """vector input with repeated centres: every listed circle must be covered, whatever the order of the radii"""
+    out = []
+    for ra, dec, radii in ((40.0, -30.0, [1.0, 4.0]), (200.0, 60.0, [2.0, 6.0, 3.0]), (0.0, 0.0, [5.0, 5.0, 0.5, 9.0])):
+        reg = Region(maxdepth=7)
+        reg.add_circles(np.radians([ra] * len(radii)), np.radians([dec] * len(radii)), np.radians(radii), depth=7)
+        big = max(radii)
+        from AegeanTools.angle_tools import translate
+        for frac in (0.3, 0.6, 0.9, 0.97):
+            for th in (10.0, 130.0, 250.0):
+                pra, pdec = translate(ra, dec, frac * big, th)
+                if not reg.sky_within(float(np.mod(pra, 360)), float(pdec), degin=True)[0]:
+                    out.append(("cover", "concentric circles %s at (%g, %g): a position %.2f deg from the centre is not in the region" % (
+                        radii, ra, dec, frac * big)))
+                    return out
+    return out
+
+
 def crosscheck(p):
     n = 25 if p.get("tier") != "thorough" else 400
     s0 = p.get("seed", 0) * 7919
@@ -130,8 +150,14 @@ def crosscheck(p):
                 seen.add("poly_" + lab)
                 failures.append({"label": "poly_" + lab, "input": {"poly_seed": s0 + i}, "what": what, "replay_func": "replay_cover",
                                  "replay_payload": {"polys": [s0 + i]}})
+    evals += 1
+    for lab, what in concentric_failures():
+        if lab not in seen:
+            seen.add(lab)
+            failures.append({"label": lab, "input": {"concentric": True}, "what": what, "replay_func": "replay_cover",
+                             "replay_payload": {"concentric": True}})
     return {"evaluations": evals, "failures": failures,
-            "rule": "random circles (poles, RA wrap, radius 0.03-40 deg, depth 3-9, scalar/vector, depth<maxdepth) and convex polygons: "
+            "rule": "concentric vector circles in every order; random circles (poles, RA wrap, radius 0.03-40 deg, depth 3-9, scalar/vector, depth<maxdepth) and convex polygons: "
                     "300 probe positions each, degin True/False, NaN, area between caps"}
 
 
@@ -139,6 +165,12 @@ def replay_cover(p):
     bad = []
     cs = p.get("circles")
     ps = p.get("polys")
+    if p.get("concentric") or (cs is None and ps is None):
+        fl = concentric_failures()
+        if fl:
+            bad.append({"concentric": True, "what": fl})
+        if p.get("concentric"):
+            return {"fails": bool(bad), "observed": bad, "replay_func": "replay_cover", "replay_payload": {"concentric": True}}
     if cs is None and ps is None:
         cs, ps = list(range(60)), list(range(60))
     for s in cs or []:
